@@ -141,19 +141,19 @@ theorem parser_accepts_only_wellformed {fl : Flags} (hfl : fl.rowLenThrows = tru
     (exception constructed, not thrown) this text is accepted although its last line is no statement of the grammar
     (three values for two states).  Evaluated by the kernel on the literal (a test of the model, labelled as such). -/
 theorem parser_accepts_malformed_row_counterexample :
-    (parse ⟨false, false⟩ .mdp "states: 2\nactions: 1\nT: 0\n1 0\n0 1\nT: 0 : 0 0.5 0.25 0.25\n".toList).toOption.isSome = true ∧
-    (parse ⟨true, false⟩ .mdp "states: 2\nactions: 1\nT: 0\n1 0\n0 1\nT: 0 : 0 0.5 0.25 0.25\n".toList).toOption.isSome = false := by
+    (parse ⟨false, false, false⟩ .mdp "states: 2\nactions: 1\nT: 0\n1 0\n0 1\nT: 0 : 0 0.5 0.25 0.25\n".toList).toOption.isSome = true ∧
+    (parse ⟨true, false, false⟩ .mdp "states: 2\nactions: 1\nT: 0\n1 0\n0 1\nT: 0 : 0 0.5 0.25 0.25\n".toList).toOption.isSome = false := by
   decide +kernel
 
 /-- the offending line is indeed outside the grammar: no statement is denoted by it -/
 theorem processMatrix_row_length_counterexample :
-    (∃ ws, processMatrix ⟨false, false⟩ 2 1 2 [] [] [] "T: 0 : 0 0.5 0.25 0.25".toList [] = .ok (ws, 0)) ∧
+    (∃ ws, processMatrix ⟨false, false, false⟩ 2 1 2 [] [] [] "T: 0 : 0 0.5 0.25 0.25".toList [] = .ok (ws, 0)) ∧
     ¬ ∃ s n, MatrixLine 2 1 2 [] [] [] "T: 0 : 0 0.5 0.25 0.25".toList [] s n := by
   constructor
-  · rcases h : processMatrix ⟨false, false⟩ 2 1 2 [] [] [] "T: 0 : 0 0.5 0.25 0.25".toList [] with e | ⟨ws, n⟩
-    · have : (processMatrix ⟨false, false⟩ 2 1 2 [] [] [] "T: 0 : 0 0.5 0.25 0.25".toList []).toOption.isSome = true := by decide +kernel
+  · rcases h : processMatrix ⟨false, false, false⟩ 2 1 2 [] [] [] "T: 0 : 0 0.5 0.25 0.25".toList [] with e | ⟨ws, n⟩
+    · have : (processMatrix ⟨false, false, false⟩ 2 1 2 [] [] [] "T: 0 : 0 0.5 0.25 0.25".toList []).toOption.isSome = true := by decide +kernel
       rw [h] at this; cases this
-    · have hn : ((processMatrix ⟨false, false⟩ 2 1 2 [] [] [] "T: 0 : 0 0.5 0.25 0.25".toList []).toOption.map (·.2)) = some 0 := by decide +kernel
+    · have hn : ((processMatrix ⟨false, false, false⟩ 2 1 2 [] [] [] "T: 0 : 0 0.5 0.25 0.25".toList []).toOption.map (·.2)) = some 0 := by decide +kernel
       rw [h] at hn
       have : n = 0 := by simpa [Except.toOption] using hn
       subst this
@@ -668,10 +668,10 @@ theorem writes_offset_lt_allocated {fl : Flags} (hfl : fl.sizeGuard = true) {k :
     accepted, `T: 0 : 1 : 1 0.5` passes the index check, and the write lands at offset 2^32+1 of an allocation of
     2^64 mod 2^64 = 0 doubles.  (Kernel evaluation on the literal; a test of the model, labelled as such.) -/
 theorem writes_offset_lt_allocated_counterexample :
-    (match parse ⟨false, false⟩ .mdp "states: 4294967296\nactions: 1\nT: 0 : 1 : 1 0.5\n".toList with
+    (match parse ⟨false, false, false⟩ .mdp "states: 4294967296\nactions: 1\nT: 0 : 1 : 1 0.5\n".toList with
      | .ok r => r.st.wT.any (fun w => decide (allocated r.pre.S r.pre.A r.pre.S ≤ offset r.pre.A r.pre.S w))
      | .error _ => false) = true ∧
-    (parse ⟨false, true⟩ .mdp "states: 4294967296\nactions: 1\nT: 0 : 1 : 1 0.5\n".toList).toOption.isSome = false := by
+    (parse ⟨false, true, false⟩ .mdp "states: 4294967296\nactions: 1\nT: 0 : 1 : 1 0.5\n".toList).toOption.isSome = false := by
   decide +kernel
 
 /-- what the source as extracted guarantees for the storage clause -/
@@ -727,7 +727,7 @@ theorem isProbability_sound (tol : Rat) (row : List XRat) (h : isProbability tol
     (`Model::setDiscount` lets NaN through — DESIGN §12 #1, C06) and every T (and W) row passes `isProbability` -/
 theorem parseCassandra_ok_valid {fl : Flags} {tol : Rat} {k : Kind} {text : Str} {r : Parsed}
     (h : parseCassandra fl tol k text = .ok r) :
-    parse fl k text = .ok r ∧ discountRejected r.pre.disc = false ∧
+    parse fl k text = .ok r ∧ discountRejected fl r.pre.disc = false ∧
     rowsOK tol r.st.wT r.pre.S r.pre.A r.pre.S = true ∧
     (k = .pomdp → rowsOK tol r.st.wW r.pre.S r.pre.A r.pre.O = true) := by
   unfold parseCassandra at h
@@ -745,6 +745,24 @@ theorem parseCassandra_ok_valid {fl : Flags} {tol : Rat} {k : Kind} {text : Str}
         refine ⟨hp, by simpa using hd, by simpa using hT, ?_⟩
         intro hk; subst hk
         simpa using hW
+
+/-- with a NaN-safe guard an accepted discount is a rational in (0, 1] -/
+theorem discount_valid_of_guard {fl : Flags} (hfl : fl.nanDiscountRejected = true) {d : XRat}
+    (h : discountRejected fl d = false) : ∃ q : Rat, d = .fin q ∧ 0 < q ∧ q ≤ 1 := by
+  unfold discountRejected at h
+  simp only [hfl, Bool.true_and, Bool.or_eq_false_iff] at h
+  obtain ⟨⟨h1, h2⟩, h3⟩ := h
+  cases d with
+  | nan => simp [XRat.isNan] at h1
+  | pinf => simp [XRat.gt, XRat.lt] at h3
+  | ninf => simp [XRat.le] at h2
+  | fin q =>
+    simp only [XRat.le, decide_eq_false_iff_not] at h2
+    simp only [XRat.gt, XRat.lt, decide_eq_false_iff_not] at h3
+    exact ⟨q, rfl, Rat.not_le.1 h2, Rat.not_lt.1 h3⟩
+
+/-- without it NaN is let through (the source as it is; DESIGN §12 #1) -/
+theorem discount_nan_counterexample : discountRejected ⟨true, true, false⟩ .nan = false := by decide
 
 /-- every cell row of an accepted model is a probability vector up to the library tolerance -/
 theorem parseCassandra_rows_valid {fl : Flags} {tol : Rat} {k : Kind} {text : Str} {r : Parsed}
@@ -767,7 +785,7 @@ theorem parseCassandra_sound {fl : Flags} (hfl : fl.rowLenThrows = true) {tol : 
         tableAt r.st.wT d1 a d3 = specAt sT r.pre.S r.pre.A r.pre.S d1 a d3 ∧
         tableAt r.st.wR d1 a d3 = specAt sR r.pre.S r.pre.A r.pre.S d1 a d3 ∧
         tableAt r.st.wW d1 a d3 = specAt sW r.pre.S r.pre.A r.pre.O d1 a d3) ∧
-    discountRejected r.pre.disc = false ∧
+    discountRejected fl r.pre.disc = false ∧
     rowsOK tol r.st.wT r.pre.S r.pre.A r.pre.S = true ∧
     (k = .pomdp → rowsOK tol r.st.wW r.pre.S r.pre.A r.pre.O = true) := by
   obtain ⟨hp, hd, hT, hW⟩ := parseCassandra_ok_valid h
@@ -780,7 +798,7 @@ theorem parseCassandra_sound {fl : Flags} (hfl : fl.rowLenThrows = true) {tol : 
 def sampleText : Str :=
   "discount: 0.5\nstates: a b\nactions: go\nT: go\n0.5 0.5\n0 1\nT: * : b 0.25 0.75\nR: go : a : * : * -1\n".toList
 
-example : (match parse ⟨true, true⟩ .mdp sampleText with
+example : (match parse ⟨true, true, true⟩ .mdp sampleText with
     | .ok r => r.pre.S == 2 && r.pre.A == 1 &&
         tableList r.st.wT 2 1 2 == [.fin (1/2), .fin (1/2), .fin (1/4), .fin (3/4)] &&
         tableList r.st.wR 2 1 2 == [.fin (-1), .fin (-1), .fin 0, .fin 0]
@@ -788,10 +806,10 @@ example : (match parse ⟨true, true⟩ .mdp sampleText with
 
 /-- `FileDenotes` (the hypothesis of `parser_refines_spec`) is inhabited by the sample file -/
 example : ∃ p lines sT sR sW, parseModelInfo (splitLines sampleText) {} [] = .ok (p, lines) ∧ FileDenotes .mdp p lines 0 sT sR sW := by
-  have h : (parse ⟨true, true⟩ .mdp sampleText).toOption.isSome = true := by decide +kernel
-  rcases h' : parse ⟨true, true⟩ .mdp sampleText with e | r
+  have h : (parse ⟨true, true, true⟩ .mdp sampleText).toOption.isSome = true := by decide +kernel
+  rcases h' : parse ⟨true, true, true⟩ .mdp sampleText with e | r
   · rw [h'] at h; cases h
-  · obtain ⟨lines, sT, sR, sW, hpre, _, _, _, hfile, _⟩ := parser_accepts_only_wellformed (fl := ⟨true, true⟩) rfl h'
+  · obtain ⟨lines, sT, sR, sW, hpre, _, _, _, hfile, _⟩ := parser_accepts_only_wellformed (fl := ⟨true, true, true⟩) rfl h'
     exact ⟨r.pre, lines, sT, sR, sW, hpre, hfile⟩
 
 /-- the character-level theorem applies to a concrete line with an unusual layout (hypotheses satisfiable):
@@ -820,9 +838,9 @@ example : ∃ v, MatrixLine 3 2 3 [("act0".toList, 0)] [("s1".toList, 1)] [("s1"
 /-- `MatrixLine` is inhabited by a concrete wildcard/name line -/
 example : ∃ s, MatrixLine 2 1 2 [("go".toList, 0)] [("b".toList, 1), ("a".toList, 0)] [("b".toList, 1), ("a".toList, 0)]
     "T: * : b 0.25 0.75".toList [] s 0 := by
-  have h : (processMatrix ⟨true, true⟩ 2 1 2 [("go".toList, 0)] [("b".toList, 1), ("a".toList, 0)] [("b".toList, 1), ("a".toList, 0)]
+  have h : (processMatrix ⟨true, true, true⟩ 2 1 2 [("go".toList, 0)] [("b".toList, 1), ("a".toList, 0)] [("b".toList, 1), ("a".toList, 0)]
       "T: * : b 0.25 0.75".toList []).toOption.map (·.2) = some 0 := by decide +kernel
-  rcases h' : processMatrix ⟨true, true⟩ 2 1 2 [("go".toList, 0)] [("b".toList, 1), ("a".toList, 0)] [("b".toList, 1), ("a".toList, 0)]
+  rcases h' : processMatrix ⟨true, true, true⟩ 2 1 2 [("go".toList, 0)] [("b".toList, 1), ("a".toList, 0)] [("b".toList, 1), ("a".toList, 0)]
       "T: * : b 0.25 0.75".toList [] with e | ⟨ws, n⟩
   · rw [h'] at h; cases h
   · rw [h'] at h
